@@ -39,8 +39,44 @@ def Recorded (acts : List Action) (p : Addr) (H : Hist) : Prop :=
     | .bcastProposal q => H.proposal p q.height q.round q.value
     | .bcastPrevote v => H.prevote p v.height v.round v.id
     | .bcastPrecommit v => H.precommit p v.height v.round v.id
-    | .commit q => H.decision p q.height q.value
+    | .commit q => H.decision p q.height q.round q.value
     | _ => True
+
+/-- Completeness: what a step of validator `p` adds to the history is exactly what its machine
+emitted (so the history never contains a message of a correct validator that its machine did not
+broadcast). -/
+structure HistFrom (H H' : Hist) (p : Addr) (acts : List Action) : Prop where
+  proposal : ∀ a h r v, H'.proposal a h r v → H.proposal a h r v ∨
+    (a = p ∧ ∃ q, Action.bcastProposal q ∈ acts ∧ q.height = h ∧ q.round = r ∧ q.value = v ∧ q.sender = p)
+  prevote : ∀ a h r id, H'.prevote a h r id → H.prevote a h r id ∨
+    (a = p ∧ Action.bcastPrevote ⟨h, r, p, id⟩ ∈ acts)
+  precommit : ∀ a h r id, H'.precommit a h r id → H.precommit a h r id ∨
+    (a = p ∧ Action.bcastPrecommit ⟨h, r, p, id⟩ ∈ acts)
+
+theorem HistFrom_refl (H : Hist) (p : Addr) (acts : List Action) : HistFrom H H p acts :=
+  ⟨fun _ _ _ _ x => Or.inl x, fun _ _ _ _ x => Or.inl x, fun _ _ _ _ x => Or.inl x⟩
+
+theorem HistFrom_trans {H1 H2 H3 : Hist} {p : Addr} {a b : List Action}
+    (h1 : HistFrom H1 H2 p a) (h2 : HistFrom H2 H3 p b) : HistFrom H1 H3 p (a ++ b) := by
+  refine ⟨?_, ?_, ?_⟩
+  · intro x h r v hx
+    rcases h2.proposal x h r v hx with hh | ⟨e, q, hq, r1, r2, r3, r4⟩
+    · rcases h1.proposal x h r v hh with hh | ⟨e, q, hq, r1, r2, r3, r4⟩
+      · exact Or.inl hh
+      · exact Or.inr ⟨e, q, List.mem_append_left _ hq, r1, r2, r3, r4⟩
+    · exact Or.inr ⟨e, q, List.mem_append_right _ hq, r1, r2, r3, r4⟩
+  · intro x h r v hx
+    rcases h2.prevote x h r v hx with hh | ⟨e, hq⟩
+    · rcases h1.prevote x h r v hh with hh | ⟨e, hq⟩
+      · exact Or.inl hh
+      · exact Or.inr ⟨e, List.mem_append_left _ hq⟩
+    · exact Or.inr ⟨e, List.mem_append_right _ hq⟩
+  · intro x h r v hx
+    rcases h2.precommit x h r v hx with hh | ⟨e, hq⟩
+    · rcases h1.precommit x h r v hh with hh | ⟨e, hq⟩
+      · exact Or.inl hh
+      · exact Or.inr ⟨e, List.mem_append_left _ hq⟩
+    · exact Or.inr ⟨e, List.mem_append_right _ hq⟩
 
 theorem setLoc_self (s : Sys) (p : Addr) (l : LState) : setLoc s p l p = l := by simp [setLoc]
 
@@ -49,7 +85,8 @@ theorem micro_refines {A : VCChange → Prop} (E : AEnv) (env : Env) (s : Sys) (
     (hb : ¬ E.byz m.nodeAddr) (hloc : s.loc m.nodeAddr = absL m)
     (hsound : VCSound E s m) (hm : XMicro env A m a m') (sc : SC m m') :
     ∃ s', (s' = s ∨ Abs.Step E s s') ∧ s'.loc m.nodeAddr = absL m' ∧ m'.nodeAddr = m.nodeAddr ∧
-      (∀ q, q ≠ m.nodeAddr → s'.loc q = s.loc q) ∧ s.hist.le s'.hist ∧ Recorded a m.nodeAddr s'.hist := by
+      (∀ q, q ≠ m.nodeAddr → s'.loc q = s.loc q) ∧ s.hist.le s'.hist ∧ Recorded a m.nodeAddr s'.hist ∧
+      HistFrom s.hist s'.hist m.nodeAddr a := by
   -- started, whenever the Tendermint variables change and the height was not just started
   have hstarted : m'.core ≠ m.core → m'.isHeightStarted = m.isHeightStarted → m.isHeightStarted = true := by
     intro hne hsame
@@ -59,23 +96,28 @@ theorem micro_refines {A : VCChange → Prop} (E : AEnv) (env : Env) (s : Sys) (
     · rw [← hsame]; exact h
   cases hm with
   | silent _ _ hc hn _ hs =>
-    refine ⟨s, Or.inl rfl, by rw [hloc, absL_of_core hc], hn, fun _ _ => rfl, Hist.le_refl _, ?_⟩
+    refine ⟨s, Or.inl rfl, by rw [hloc, absL_of_core hc], hn, fun _ _ => rfl, Hist.le_refl _, ?_, HistFrom_refl _ _ _⟩
     intro x hx
     have := hs x hx
     cases x <;> simp [silentAct] at this <;> trivial
   | recv _ c _ hc hn _ =>
-    exact ⟨s, Or.inl rfl, by rw [hloc, absL_of_core hc], hn, fun _ _ => rfl, Hist.le_refl _, fun x hx => by cases hx⟩
+    exact ⟨s, Or.inl rfl, by rw [hloc, absL_of_core hc], hn, fun _ _ => rfl, Hist.le_refl _, (fun x hx => by cases hx), HistFrom_refl _ _ _⟩
   | propose _ q hc hn _ h1 h2 h3 =>
     refine ⟨⟨addProposal s.hist m.nodeAddr (absL m).height (absL m).round q.value, s.loc⟩,
       Or.inr (Abs.Step.propose s m.nodeAddr (absL m) q.value hb hloc), by rw [hloc, absL_of_core hc], hn,
-      fun _ _ => rfl, le_addProposal _ _ _ _ _, ?_⟩
-    intro x hx
-    simp at hx; subst hx
-    exact Or.inr ⟨rfl, h1, h2, rfl⟩
+      fun _ _ => rfl, le_addProposal _ _ _ _ _, ?_, ?_⟩
+    · intro x hx
+      simp at hx; subst hx
+      exact Or.inr ⟨rfl, h1, h2, rfl⟩
+    · refine ⟨?_, fun _ _ _ _ x => Or.inl x, fun _ _ _ _ x => Or.inl x⟩
+      intro a h r v hx
+      rcases hx with hx | ⟨ha, hh', hr', hv'⟩
+      · exact Or.inl hx
+      · exact Or.inr ⟨ha, q, List.mem_singleton.mpr rfl, by rw [hh', h1]; rfl, by rw [hr', h2]; rfl, hv'.symm, h3⟩
   | start _ r hs hr0 hn _ hc =>
     refine ⟨⟨s.hist, setLoc s m.nodeAddr { absL m with started := true, round := r, step := .propose }⟩,
       Or.inr (Abs.Step.start s m.nodeAddr (absL m) r hb hloc hs hr0), ?_, hn,
-      fun q hq => by simp [setLoc, hq], Hist.le_refl _, fun x hx => by cases hx⟩
+      fun q hq => by simp [setLoc, hq], Hist.le_refl _, (fun x hx => by cases hx), HistFrom_refl _ _ _⟩
     show setLoc s m.nodeAddr _ m.nodeAddr = absL m'
     rw [setLoc_self, absL_eq hc]; rfl
   | newRound _ r hlt hn _ hc =>
@@ -88,7 +130,7 @@ theorem micro_refines {A : VCChange → Prop} (E : AEnv) (env : Env) (s : Sys) (
         exact this
     refine ⟨⟨s.hist, setLoc s m.nodeAddr { absL m with round := r, step := .propose }⟩,
       Or.inr (Abs.Step.newRound s m.nodeAddr (absL m) r hb hloc hst hlt), ?_, hn,
-      fun q hq => by simp [setLoc, hq], Hist.le_refl _, fun x hx => by cases hx⟩
+      fun q hq => by simp [setLoc, hq], Hist.le_refl _, (fun x hx => by cases hx), HistFrom_refl _ _ _⟩
     show setLoc s m.nodeAddr _ m.nodeAddr = absL m'
     rw [setLoc_self, absL_eq hc]; rfl
   | prevote _ id hstep hg hn _ hc =>
@@ -112,10 +154,16 @@ theorem micro_refines {A : VCChange → Prop} (E : AEnv) (env : Env) (s : Sys) (
     refine ⟨⟨addPrevote s.hist m.nodeAddr (absL m).height (absL m).round id,
              setLoc s m.nodeAddr { absL m with step := .prevote }⟩,
       Or.inr (Abs.Step.prevote s m.nodeAddr (absL m) id hb hloc hst hstep hguard), ?_, hn,
-      fun q hq => by simp [setLoc, hq], le_addPrevote _ _ _ _ _, ?_⟩
+      fun q hq => by simp [setLoc, hq], le_addPrevote _ _ _ _ _, ?_, ?_⟩
     · show setLoc s m.nodeAddr _ m.nodeAddr = absL m'
       rw [setLoc_self, absL_eq hc]; rfl
     · intro x hx; simp at hx; subst hx; exact Or.inr ⟨rfl, rfl, rfl, rfl⟩
+    · refine ⟨fun _ _ _ _ x => Or.inl x, ?_, fun _ _ _ _ x => Or.inl x⟩
+      intro a h r id' hx
+      rcases hx with hx | ⟨ha, hh', hr', hid'⟩
+      · exact Or.inl hx
+      · subst ha; subst hh'; subst hr'; subst hid'
+        exact Or.inr ⟨rfl, List.mem_singleton.mpr rfl⟩
   | precommitNil _ hstep hn _ hc =>
     have hst : m.isHeightStarted = true := by
       apply hstarted
@@ -127,10 +175,16 @@ theorem micro_refines {A : VCChange → Prop} (E : AEnv) (env : Env) (s : Sys) (
     refine ⟨⟨addPrecommit s.hist m.nodeAddr (absL m).height (absL m).round none,
              setLoc s m.nodeAddr { absL m with step := .precommit }⟩,
       Or.inr (Abs.Step.precommitNil s m.nodeAddr (absL m) hb hloc hst hstep), ?_, hn,
-      fun q hq => by simp [setLoc, hq], le_addPrecommit _ _ _ _ _, ?_⟩
+      fun q hq => by simp [setLoc, hq], le_addPrecommit _ _ _ _ _, ?_, ?_⟩
     · show setLoc s m.nodeAddr _ m.nodeAddr = absL m'
       rw [setLoc_self, absL_eq hc]; rfl
     · intro x hx; simp at hx; subst hx; exact Or.inr ⟨rfl, rfl, rfl, rfl⟩
+    · refine ⟨fun _ _ _ _ x => Or.inl x, fun _ _ _ _ x => Or.inl x, ?_⟩
+      intro a h r id' hx
+      rcases hx with hx | ⟨ha, hh', hr', hid'⟩
+      · exact Or.inl hx
+      · subst ha; subst hh'; subst hr'; subst hid'
+        exact Or.inr ⟨rfl, List.mem_singleton.mpr rfl⟩
   | precommitValue _ v hstep _ hq hn _ hc =>
     have hst : m.isHeightStarted = true := by
       apply hstarted
@@ -142,10 +196,16 @@ theorem micro_refines {A : VCChange → Prop} (E : AEnv) (env : Env) (s : Sys) (
     refine ⟨⟨addPrecommit s.hist m.nodeAddr (absL m).height (absL m).round (some v),
              setLoc s m.nodeAddr { absL m with step := .precommit, lockedValue := some v, lockedRound := (absL m).round }⟩,
       Or.inr (Abs.Step.precommitValue s m.nodeAddr (absL m) v hb hloc hst hstep (hsound.polka _ _ hq)), ?_, hn,
-      fun q hq => by simp [setLoc, hq], le_addPrecommit _ _ _ _ _, ?_⟩
+      fun q hq => by simp [setLoc, hq], le_addPrecommit _ _ _ _ _, ?_, ?_⟩
     · show setLoc s m.nodeAddr _ m.nodeAddr = absL m'
       rw [setLoc_self, absL_eq hc]; rfl
     · intro x hx; simp at hx; subst hx; exact Or.inr ⟨rfl, rfl, rfl, rfl⟩
+    · refine ⟨fun _ _ _ _ x => Or.inl x, fun _ _ _ _ x => Or.inl x, ?_⟩
+      intro a h r id' hx
+      rcases hx with hx | ⟨ha, hh', hr', hid'⟩
+      · exact Or.inl hx
+      · subst ha; subst hh'; subst hr'; subst hid'
+        exact Or.inr ⟨rfl, List.mem_singleton.mpr rfl⟩
   | commit _ q hg hval hq hh hs hn _ hc =>
     have hst : m.isHeightStarted = true := by
       rcases sc with h | h | h
@@ -160,13 +220,14 @@ theorem micro_refines {A : VCChange → Prop} (E : AEnv) (env : Env) (s : Sys) (
       have := hsound.prop _ _ hg
       rw [hs, ← hp, hh] at this
       exact this
-    refine ⟨⟨addDecision s.hist m.nodeAddr (absL m).height q.value, setLoc s m.nodeAddr (initL ((absL m).height + 1))⟩,
+    refine ⟨⟨addDecision s.hist m.nodeAddr (absL m).height q.round q.value, setLoc s m.nodeAddr (initL ((absL m).height + 1))⟩,
       Or.inr (Abs.Step.commit s m.nodeAddr (absL m) q.round q.value hb hloc hst (hsound.pcq _ _ hq)
         (by rw [hv]; exact hval) hprop), ?_, hn,
-      fun x hx => by simp [setLoc, hx], le_addDecision _ _ _ _, ?_⟩
+      fun x hx => by simp [setLoc, hx], le_addDecision _ _ _ _ _, ?_,
+      ⟨fun _ _ _ _ x => Or.inl x, fun _ _ _ _ x => Or.inl x, fun _ _ _ _ x => Or.inl x⟩⟩
     · show setLoc s m.nodeAddr _ m.nodeAddr = absL m'
       rw [setLoc_self, absL_eq hc]; rfl
-    · intro x hx; simp at hx; subst hx; exact Or.inr ⟨rfl, hh, rfl⟩
+    · intro x hx; simp at hx; subst hx; exact Or.inr ⟨rfl, hh, rfl, rfl⟩
 
 
 /-! ## the unconditional simulation: `VCSound` follows from the ballot bookkeeping -/
@@ -208,10 +269,11 @@ theorem micro_sim {A : VCChange → Prop} (E : AEnv) (env : Env) (ok : EnvOK E e
     (hauth : ∀ c, A c → AuthC E s.hist c)
     (hm : XMicro env A m a m') (sc : SC m m') (hinv' : MInv env m') :
     ∃ s', (s' = s ∨ Abs.Step E s s') ∧ Sim E env s' m' ∧ m'.nodeAddr = m.nodeAddr ∧
-      (∀ q, q ≠ m.nodeAddr → s'.loc q = s.loc q) ∧ s.hist.le s'.hist ∧ Recorded a m.nodeAddr s'.hist := by
-  obtain ⟨s', hstep, hloc', hn, hoth, hle, hrec⟩ :=
+      (∀ q, q ≠ m.nodeAddr → s'.loc q = s.loc q) ∧ s.hist.le s'.hist ∧ Recorded a m.nodeAddr s'.hist ∧
+      HistFrom s.hist s'.hist m.nodeAddr a := by
+  obtain ⟨s', hstep, hloc', hn, hoth, hle, hrec, hfrom⟩ :=
     micro_refines E env s m m' a ok.valid ok.proposer hb hsim.loc (Sim_sound E env ok wf s m hsim) hm sc
-  refine ⟨s', hstep, ⟨by rw [hn]; exact hloc', ?_, hinv'⟩, hn, hoth, hle, hrec⟩
+  refine ⟨s', hstep, ⟨by rw [hn]; exact hloc', ?_, hinv'⟩, hn, hoth, hle, hrec, hfrom⟩
   have base := VCJust_mono E hle hsim.just
   cases hm with
   | silent _ _ _ _ hvc _ => rw [hvc]; exact base
@@ -306,7 +368,7 @@ theorem Hist.le_trans {H1 H2 H3 : Hist} (h1 : H1.le H2) (h2 : H2.le H3) : H1.le 
   ⟨fun a h r v x => h2.proposal a h r v (h1.proposal a h r v x),
    fun a h r v x => h2.prevote a h r v (h1.prevote a h r v x),
    fun a h r v x => h2.precommit a h r v (h1.precommit a h r v x),
-   fun a h v x => h2.decision a h v (h1.decision a h v x)⟩
+   fun a h r v x => h2.decision a h r v (h1.decision a h r v x)⟩
 
 theorem Recorded_mono {acts : List Action} {p : Addr} {H H' : Hist} (hle : H.le H') (h : Recorded acts p H) :
     Recorded acts p H' := by
@@ -316,7 +378,7 @@ theorem Recorded_mono {acts : List Action} {p : Addr} {H H' : Hist} (hle : H.le 
   | bcastProposal q => exact hle.proposal _ _ _ _ this
   | bcastPrevote v => exact hle.prevote _ _ _ _ this
   | bcastPrecommit v => exact hle.precommit _ _ _ _ this
-  | commit q => exact hle.decision _ _ _ this
+  | commit q => exact hle.decision _ _ _ _ this
   | writeWAL _ => trivial
   | schedule _ _ _ => trivial
   | triggerSync _ _ => trivial
@@ -334,18 +396,20 @@ theorem chain_sim {A : VCChange → Prop} (E : AEnv) (env : Env) (ok : EnvOK E e
     (m m' : Machine) (acts : List Action) (hc : XChain env A m acts m') :
     ∀ (s : Sys), ¬ E.byz m.nodeAddr → Sim E env s m → (∀ c, A c → AuthC E s.hist c) →
     ∃ s', Steps E s s' ∧ Sim E env s' m' ∧ m'.nodeAddr = m.nodeAddr ∧
-      (∀ q, q ≠ m.nodeAddr → s'.loc q = s.loc q) ∧ s.hist.le s'.hist ∧ Recorded acts m.nodeAddr s'.hist := by
+      (∀ q, q ≠ m.nodeAddr → s'.loc q = s.loc q) ∧ s.hist.le s'.hist ∧ Recorded acts m.nodeAddr s'.hist ∧
+      HistFrom s.hist s'.hist m.nodeAddr acts := by
   induction hc with
   | nil m0 =>
     intro s _ hsim _
-    exact ⟨s, Steps.refl s, hsim, rfl, fun _ _ => rfl, Hist.le_refl _, fun a ha => by cases ha⟩
+    exact ⟨s, Steps.refl s, hsim, rfl, fun _ _ => rfl, Hist.le_refl _, (fun a ha => by cases ha), HistFrom_refl _ _ _⟩
   | @cons m0 m1 m2 a as hm sc _ ih =>
     intro s hb hsim hauth
-    obtain ⟨s1, hstep, hsim1, hn1, hoth1, hle1, hrec1⟩ :=
+    obtain ⟨s1, hstep, hsim1, hn1, hoth1, hle1, hrec1, hfrom1⟩ :=
       micro_sim E env ok wf s m0 m1 a hb hsim hauth hm sc (micro_MInv env m0 m1 a hm hsim.inv)
-    obtain ⟨s2, hsteps, hsim2, hn2, hoth2, hle2, hrec2⟩ :=
+    obtain ⟨s2, hsteps, hsim2, hn2, hoth2, hle2, hrec2, hfrom2⟩ :=
       ih s1 (by rw [hn1]; exact hb) hsim1 (fun c hc => AuthC_mono E hle1 (hauth c hc))
-    refine ⟨s2, ?_, hsim2, by rw [hn2, hn1], ?_, Hist.le_trans hle1 hle2, ?_⟩
+    rw [hn1] at hfrom2
+    refine ⟨s2, ?_, hsim2, by rw [hn2, hn1], ?_, Hist.le_trans hle1 hle2, ?_, HistFrom_trans hfrom1 hfrom2⟩
     · rcases hstep with h | h
       · subst h; exact hsteps
       · exact Steps.trans (Steps.tail (Steps.refl s) h) hsteps
@@ -358,7 +422,7 @@ theorem step_sim (E : AEnv) (env : Env) (ok : EnvOK E env) (wf : E.WF) (s : Sys)
     (hauth : ∀ c, RecvOf i c → AuthC E s.hist c) :
     ∃ s', Steps E s s' ∧ Sim E env s' (m.step env i).1 ∧ (m.step env i).1.nodeAddr = m.nodeAddr ∧
       (∀ q, q ≠ m.nodeAddr → s'.loc q = s.loc q) ∧ s.hist.le s'.hist ∧
-      Recorded (m.step env i).2 m.nodeAddr s'.hist := by
+      Recorded (m.step env i).2 m.nodeAddr s'.hist ∧ HistFrom s.hist s'.hist m.nodeAddr (m.step env i).2 := by
   have hc := step_chain (A := RecvOf i) env m i (fun c h => h) hok hsim.inv
   exact chain_sim E env ok wf m _ _ hc.1 s hb hsim hauth
 
